@@ -43,9 +43,13 @@ CHECKS = {
          "(every step is a call delivered or returned; demand is never invented), at rest for_each has received the end (demand is never "
          "lost: counting argument over Pulls/data/greetings per link, status coupling of every stage at rest), and f was called on the list "
          "function of the WHOLE input; the extracted runner of exactly these nets (PipeNet.net_pipe_run, proved to return sem p xs) is run "
-         "against the crate on every generated pipeline of unary stages (values, next() count, completion). Not proved: liveness of "
-         "pipelines with concat!/flatten stages or unbounded inputs cut by a take (compared with the lazy interpreter only), the next() "
-         "count of the composed models.",
+         "against the crate on every generated pipeline of unary stages (values, next() count, completion). (4) 'take over an unbounded "
+         "iterator stops' (C06_take_stops): for ANY iterator, when a take follows stages that pass every datum on (map, scan), the run is "
+         "finite with a bound depending on the take's count only, next() is called at most n times, for_each has seen the end; in every "
+         "reachable state of every pipeline the results of next() are exactly the delivered items plus one None iff from_iter ended, and "
+         "never more than the Pulls it received (C06_pipeline_nexts). Not proved: liveness of pipelines with concat!/flatten stages, and "
+         "of unbounded inputs when a dropping stage (filter/skip) precedes the take (it can genuinely diverge); those are compared with "
+         "the lazy interpreter only.",
          "Coq assume-guarantee composition theorem over the component models + list-function/lazy-interpreter equivalence + differential tests"),
  "C07": ("proof", "Theorems: at every control point data_out = map f / filter c / scan_list r seed / firstn n / skipn n of data_in, for all "
          "parameters and all environments (push and pull are the same relation); sink and upstream end together (paired); take completes "
